@@ -69,6 +69,10 @@ fn gen_path(r: &mut Rng, depth: usize) -> String {
             let at = r.usize_below(part.len() + 1);
             part.insert(at, c);
         }
+        if r.chance(1, 16) {
+            // hidden-file style names (never "." or ".." themselves)
+            part.insert_str(0, *r.pick(&[".", "..", "...", "._"]));
+        }
         if r.chance(1, 14) {
             let n = r.range(60, 110) as usize;
             part.push('_');
